@@ -311,6 +311,8 @@ def random_spec(rng, *, max_side=6, kmax=40, for_solver=False, frames=1):
     for _ in range(200):
         nx = rng.randint(2, max_side)
         ny = rng.randint(2, max_side)
+        if for_solver and nx * ny < 6:
+            continue
         spec = {"kind": "voronoi", "nx": nx, "ny": ny, "sseed": rng.randrange(10 ** 9),
                 "jitter": round(rng.uniform(0.05, 0.3), 3), "hex": rng.random() < 0.7}
         n = nx * ny
